@@ -18,7 +18,7 @@ def sh(cmd, cwd=None, env=None, timeout=3600):
 
 
 OWN_ONLY = bool(os.environ.get("MATRIX_OWN_ONLY"))
-D_OWN = {"D4": "C20", "D9": "C20", "D12": "C06", "D14": "C20"}
+D_OWN = {"D4": "C20", "D9": "C20", "D12": "C06", "D14": "C20", "D16": "C17"}
 
 
 def own_of(mid):
